@@ -91,7 +91,8 @@ fn w(tree: &Node, ctx: &HashMapContext) {
             if l['kind'] == 'thread_local' or 'LocalKey' in l['container']:
                 tls_sites.append((short(s['caller']), s['callee_defs'][0]))
     ctx.check(not bad, 'O5', 'no-global-state-api', 'global', 'no body calls std::env/fs/time/thread/process/io/net or lock/atomic APIs (found %s)' % bad[:4])
-    allowed = [x for x in tls_sites if 'HashMap' in x[1] and 'default' in x[1].lower()]
+    # HashMap::default / HashMap::new / HashMap::with_capacity all build the same RandomState
+    allowed = [x for x in tls_sites if 'HashMap' in x[1] and (x[1].split('::')[-1] in ('default', 'new', 'with_capacity'))]
     other = [x for x in tls_sites if x not in allowed]
     ctx.check(not other, 'O5', 'thread-local-only-in-HashMap::default', 'tls', 'the only thread-local access below the crate is RandomState::new inside HashMap::default (others: %s)' % other[:4])
     users = sorted({short(f.path) for f in prog.fns for b, t in f.calls() if not t['callee'].get('local') and t['callee']['name'] in ('iter', 'keys', 'values', 'into_iter', 'drain', 'iter_mut', 'values_mut', 'retain') and 'HashMap' in (t['callee'].get('def') or '')})
